@@ -1,9 +1,13 @@
 (** * C03, mesh part: hill climbing on the vertex adjacency graph (distance3d/mesh.py,
       model [scan] / [climb] / [hill_climb] / [mesh_query] of Model/Support.v).
 
+    (Model of the code since /repo 7cb1be3: the projection of the best vertex is carried
+    along and must increase by more than 10*eps at every move.  The earlier code compared
+    d.(v_j - v_best) with the threshold, which could cycle forever in binary64 - finding
+    F-M1 - although it terminated over the reals.)
     - the loop stops only at a vertex without a neighbour improving the projection by more
-      than 10*eps ([hill_climb_local_max_valid]; the statement without the validity
-      hypothesis on the start index is refuted by [hill_climb_local_max_refuted]);
+      than 10*eps ([hill_climb_local_max]: no hypothesis on the start index any more, the new
+      code reads vertices[start_idx] first and fails with IndexError otherwise);
     - PARTIAL: under the hypothesis [LocalMaxGlobal] on the input mesh (local maxima of the
       adjacency graph are within [delta] of the global maximum) the answer is a support point
       of the placed hull up to [delta], independently of the cached start vertex;
@@ -30,152 +34,134 @@ Definition conn_closed (vs : list V3R) (conn : list (nat * list nat)) : Prop :=
 Section Scan.
   Variables (d : V3R) (vs : list V3R).
 
-  Lemma scan_cons (best : nat) (moved : bool) (j : nat) (l : list nat) :
-    scan d vs best moved (j :: l) =
-    match nth_error vs j, nth_error vs best with
-    | Some vj, Some vb =>
-        if Rltb EPSILON10 (dot d (vsub vj vb)) then scan d vs j true l else scan d vs best moved l
-    | _, _ => None
+  (** the carried projection is the projection of the carried index *)
+  Definition inv (best : nat) (bp : R) : Prop := exists vb, nth_error vs best = Some vb /\ bp = dot d vb.
+
+  Lemma scan_cons (best : nat) (bp : R) (moved : bool) (j : nat) (l : list nat) :
+    scan d vs best bp moved (j :: l) =
+    match nth_error vs j with
+    | Some vj => if Rltb (bp + EPSILON10) (dot d vj) then scan d vs j (dot d vj) true l else scan d vs best bp moved l
+    | None => None
     end.
   Proof. reflexivity. Qed.
 
   (** once moved, always moved *)
-  Lemma scan_moved_true : forall l best b m,
-    scan d vs best true l = Some (b, m) -> m = true.
+  Lemma scan_moved_true : forall l best bp b bp' m,
+    scan d vs best bp true l = Some (b, bp', m) -> m = true.
   Proof.
-    induction l as [|j l IH]; intros best b m H.
-    - cbn in H. injection H as _ <-. reflexivity.
+    induction l as [|j l IH]; intros best bp b bp' m H.
+    - cbn in H. injection H as _ _ <-. reflexivity.
     - rewrite scan_cons in H.
       destruct (nth_error vs j) as [vj|]; [|discriminate].
-      destruct (nth_error vs best) as [vb|]; [|discriminate].
-      destruct (Rltb EPSILON10 (dot d (vsub vj vb))); eapply IH; eauto.
+      destruct (Rltb (bp + EPSILON10) (dot d vj)); eapply IH; eauto.
   Qed.
 
-  (** a pass that did not move kept the index and saw no improving neighbour *)
-  Lemma scan_false : forall l best b,
-    scan d vs best false l = Some (b, false) ->
-    b = best /\
-    forall j vj vb, In j l -> nth_error vs j = Some vj -> nth_error vs best = Some vb ->
-                    dot d (vsub vj vb) <= EPSILON10.
+  (** a pass that did not move kept index and projection and saw no improving neighbour *)
+  Lemma scan_false : forall l best bp b bp',
+    scan d vs best bp false l = Some (b, bp', false) ->
+    b = best /\ bp' = bp /\
+    forall j vj, In j l -> nth_error vs j = Some vj -> dot d vj <= bp + EPSILON10.
   Proof.
-    induction l as [|j l IH]; intros best b H.
-    - cbn in H. injection H as <-. split; auto. intros ? ? ? [].
+    induction l as [|j l IH]; intros best bp b bp' H.
+    - cbn in H. injection H as <- <-. repeat split; auto. intros ? ? [].
     - rewrite scan_cons in H.
       destruct (nth_error vs j) as [vj|] eqn:Ej; [|discriminate].
-      destruct (nth_error vs best) as [vb|] eqn:Eb; [|discriminate].
-      case_ltb (@EPSILON10 R ROps) (dot d (vsub vj vb)) Ht.
+      case_ltb (bp + @EPSILON10 R ROps) (dot d vj) Ht.
       + apply scan_moved_true in H. discriminate.
-      + destruct (IH _ _ H) as [-> Hall]. split; auto.
-        intros j' vj' vb' [<-|Hin] Hj' Hb'.
-        * assert (vj' = vj) by congruence. assert (vb' = vb) by congruence. subst. exact Ht.
-        * eapply Hall; eauto. congruence.
+      + destruct (IH _ _ _ _ H) as (-> & -> & Hall). repeat split; auto.
+        intros j' vj' [<-|Hin] Hj'.
+        * assert (vj' = vj) by congruence. subst. exact Ht.
+        * eapply Hall; eauto.
   Qed.
 
   (** the result of a pass is a valid index whenever the start is *)
-  Lemma scan_valid : forall l best moved b m,
-    scan d vs best moved l = Some (b, m) -> (best < length vs)%nat -> (b < length vs)%nat.
+  Lemma scan_valid : forall l best bp moved b bp' m,
+    scan d vs best bp moved l = Some (b, bp', m) -> (best < length vs)%nat -> (b < length vs)%nat.
   Proof.
-    induction l as [|j l IH]; intros best moved b m H Hv.
-    - cbn in H. injection H as <- _. exact Hv.
+    induction l as [|j l IH]; intros best bp moved b bp' m H Hv.
+    - cbn in H. injection H as <- _ _. exact Hv.
     - rewrite scan_cons in H.
       destruct (nth_error vs j) as [vj|] eqn:Ej; [|discriminate].
-      destruct (nth_error vs best) as [vb|] eqn:Eb; [|discriminate].
-      destruct (Rltb EPSILON10 (dot d (vsub vj vb))).
+      destruct (Rltb (bp + EPSILON10) (dot d vj)).
       + eapply IH; eauto. apply nth_error_Some. congruence.
       + eapply IH; eauto.
   Qed.
 
-  (** the projection never decreases, and increases by more than the threshold if moved *)
-  Lemma scan_mono : forall l best moved b m vb,
-    scan d vs best moved l = Some (b, m) -> nth_error vs best = Some vb ->
-    exists vb', nth_error vs b = Some vb' /\ dot d vb <= dot d vb' /\
-                (moved = false -> m = true -> dot d vb + EPSILON10 < dot d vb').
+  (** the invariant is kept; the projection never decreases and increases by more than the
+      threshold if the pass moved *)
+  Lemma scan_inv : forall l best bp moved b bp' m,
+    scan d vs best bp moved l = Some (b, bp', m) -> inv best bp ->
+    inv b bp' /\ bp <= bp' /\ (moved = false -> m = true -> bp + EPSILON10 < bp').
   Proof.
-    induction l as [|j l IH]; intros best moved b m vb H Hb.
-    - cbn in H. injection H as <- <-. exists vb. repeat split; auto; try lra.
+    induction l as [|j l IH]; intros best bp moved b bp' m H Hi.
+    - cbn in H. injection H as <- <- <-. repeat split; auto; try lra.
       intros -> ?; discriminate.
     - rewrite scan_cons in H.
       destruct (nth_error vs j) as [vj|] eqn:Ej; [|discriminate].
-      rewrite Hb in H.
-      case_ltb (@EPSILON10 R ROps) (dot d (vsub vj vb)) Ht.
-      + destruct (IH _ _ _ _ _ H Ej) as (vb' & E' & Hle & _).
-        rewrite dot_sub_r in Ht.
-        exists vb'. repeat split; auto.
-        * pose proof EPSILON10_R_pos. lra.
-        * intros _ _. lra.
-      + destruct (IH _ _ _ _ _ H Hb) as (vb' & E' & Hle & Hlt).
-        exists vb'. repeat split; auto.
+      case_ltb (bp + @EPSILON10 R ROps) (dot d vj) Ht.
+      + destruct (IH _ _ _ _ _ _ H) as (Hi' & Hle & _); [exists vj; auto|].
+        pose proof EPSILON10_R_pos. repeat split; auto; try lra.
+      + destruct (IH _ _ _ _ _ _ H Hi) as (Hi' & Hle & Hlt). repeat split; auto.
   Qed.
 
-  (** a pass over valid indices from a valid index does not fail *)
-  Lemma scan_total : forall l best moved,
-    (forall j, In j l -> (j < length vs)%nat) -> (best < length vs)%nat ->
-    exists b m, scan d vs best moved l = Some (b, m).
+  (** a pass over valid indices does not fail *)
+  Lemma scan_total : forall l best bp moved,
+    (forall j, In j l -> (j < length vs)%nat) ->
+    exists b bp' m, scan d vs best bp moved l = Some (b, bp', m).
   Proof.
-    induction l as [|j l IH]; intros best moved Hl Hv.
+    induction l as [|j l IH]; intros best bp moved Hl.
     - cbn. eauto.
     - rewrite scan_cons.
       assert (Hj : (j < length vs)%nat) by (apply Hl; simpl; auto).
       destruct (nth_error vs j) as [vj|] eqn:Ej; [|apply nth_error_None in Ej; lia].
-      destruct (nth_error vs best) as [vb|] eqn:Eb; [|apply nth_error_None in Eb; lia].
-      destruct (Rltb EPSILON10 (dot d (vsub vj vb))); apply IH; auto; intros; apply Hl; simpl; auto.
+      destruct (Rltb (bp + EPSILON10) (dot d vj)); apply IH; intros; apply Hl; simpl; auto.
   Qed.
 End Scan.
 
 (** ** the loop stops only at a local maximum *)
-Lemma climb_ok_local_max (d : V3R) vs conn : forall fuel best i v,
-  climb fuel d vs conn best = ClimbOk i -> nth_error vs i = Some v -> local_max d vs conn i.
+Lemma climb_ok_local_max (d : V3R) vs conn : forall fuel best bp i,
+  climb fuel d vs conn best bp = ClimbOk i -> inv d vs best bp -> local_max d vs conn i.
 Proof.
-  induction fuel as [|fuel IH]; intros best i v H Hv; cbn [climb] in H; [discriminate|].
+  induction fuel as [|fuel IH]; intros best bp i H Hi; cbn [climb] in H; [discriminate|].
   destruct (lookup best conn) as [nb|] eqn:El; [|discriminate].
-  destruct (scan d vs best false nb) as [[b [|]]|] eqn:Es; [eauto|idtac|discriminate].
-  injection H as ->.
-  apply scan_false in Es. destruct Es as [-> Hall].
-  exists v, nb. repeat split; auto.
-  intros j vj Hin Hj. eapply Hall; eauto.
+  destruct (scan d vs best bp false nb) as [[[b bp'] [|]]|] eqn:Es; [|idtac|discriminate].
+  - eapply IH; eauto. eapply scan_inv; eauto.
+  - injection H as ->.
+    apply scan_false in Es. destruct Es as (-> & -> & Hall).
+    destruct Hi as (vi & Evi & ->).
+    exists vi, nb. repeat split; auto.
+    intros j vj Hin Hj. rewrite dot_sub_r. specialize (Hall j vj Hin Hj). lra.
 Qed.
 
-Lemma climb_valid (d : V3R) vs conn : forall fuel best i,
-  climb fuel d vs conn best = ClimbOk i -> (best < length vs)%nat -> (i < length vs)%nat.
+Lemma climb_valid (d : V3R) vs conn : forall fuel best bp i,
+  climb fuel d vs conn best bp = ClimbOk i -> (best < length vs)%nat -> (i < length vs)%nat.
 Proof.
-  induction fuel as [|fuel IH]; intros best i H Hv; cbn [climb] in H; [discriminate|].
+  induction fuel as [|fuel IH]; intros best bp i H Hv; cbn [climb] in H; [discriminate|].
   destruct (lookup best conn) as [nb|] eqn:El; [|discriminate].
-  destruct (scan d vs best false nb) as [[b [|]]|] eqn:Es; [|idtac|discriminate].
+  destruct (scan d vs best bp false nb) as [[[b bp'] [|]]|] eqn:Es; [|idtac|discriminate].
   - eapply IH; eauto. eapply scan_valid; eauto.
   - injection H as <-. eapply scan_valid; eauto.
 Qed.
 
-Lemma hill_climb_ok_local_max fuel (d : V3R) start vs conn shortcuts i v :
-  hill_climb fuel d start vs conn shortcuts = ClimbOk i -> nth_error vs i = Some v ->
-  local_max d vs conn i.
-Proof.
-  unfold hill_climb. destruct (scan d vs start false shortcuts) as [[b m]|]; [|discriminate].
-  apply climb_ok_local_max.
-Qed.
-
-(** [S_hill_climb_local_max] as stated (no validity hypothesis) is FALSE: with an empty
-    shortcut list, an empty neighbour list and an out-of-range start index the model (like
-    the Python code) never reads a vertex and returns the invalid start index *)
-Lemma hill_climb_local_max_refuted :
-  ~ (forall fuel (d : V3R) start vs conn shortcuts i,
-       hill_climb fuel d start vs conn shortcuts = ClimbOk i -> local_max d vs conn i).
-Proof.
-  intros H.
-  specialize (H 1%nat (V 0 0 0) 0%nat [] [(0%nat, [])] [] 0%nat eq_refl).
-  destruct H as (vi & nb & Hn & _). discriminate.
-Qed.
-
-Theorem hill_climb_local_max_valid : forall fuel (d : V3R) start vs conn shortcuts i,
-  (start < length vs)%nat ->
+(** no validity hypothesis on the start index: the code reads vertices[start_idx] first *)
+Theorem hill_climb_local_max : forall fuel (d : V3R) start vs conn shortcuts i,
   hill_climb fuel d start vs conn shortcuts = ClimbOk i -> local_max d vs conn i.
 Proof.
-  intros fuel d start vs conn shortcuts i Hv H.
-  assert (Hi : (i < length vs)%nat).
-  { unfold hill_climb in H.
-    destruct (scan d vs start false shortcuts) as [[b m]|] eqn:Es; [|discriminate].
-    eapply climb_valid; eauto. eapply scan_valid; eauto. }
-  destruct (nth_error vs i) as [v|] eqn:Ev; [|apply nth_error_None in Ev; lia].
-  eapply hill_climb_ok_local_max; eauto.
+  intros fuel d start vs conn shortcuts i H. unfold hill_climb in H.
+  destruct (nth_error vs start) as [v0|] eqn:E0; [|discriminate].
+  destruct (scan d vs start (dot d v0) false shortcuts) as [[[b bp] m]|] eqn:Es; [|discriminate].
+  eapply climb_ok_local_max; eauto.
+  eapply scan_inv; eauto. exists v0; auto.
+Qed.
+
+Lemma hill_climb_valid : forall fuel (d : V3R) start vs conn shortcuts i,
+  hill_climb fuel d start vs conn shortcuts = ClimbOk i -> (start < length vs)%nat /\ (i < length vs)%nat.
+Proof.
+  intros fuel d start vs conn shortcuts i H. unfold hill_climb in H.
+  destruct (nth_error vs start) as [v0|] eqn:E0; [|discriminate].
+  assert (Hs : (start < length vs)%nat) by (apply nth_error_Some; congruence).
+  destruct (scan d vs start (dot d v0) false shortcuts) as [[[b bp] m]|] eqn:Es; [|discriminate].
+  split; auto. eapply climb_valid; eauto. eapply scan_valid; eauto.
 Qed.
 
 (** ** PARTIAL correctness of the mesh support function under [LocalMaxGlobal] *)
@@ -191,7 +177,7 @@ Proof.
   destruct (nth_error vs i) as [v|] eqn:Ev; [|discriminate].
   injection H as -> <-.
   split; [eapply hull_set_vertex; eauto|].
-  pose proof (hill_climb_ok_local_max _ _ _ _ _ _ _ _ Eh Ev) as Hlm.
+  pose proof (hill_climb_local_max _ _ _ _ _ _ _ Eh) as Hlm.
   specialize (HL idx v Hlm Ev).
   intros x Hx. unfold hull_set in Hx.
   rewrite (dot_comm x d).
@@ -269,32 +255,51 @@ Section Terminates.
     - destruct (Rlt_dec (proj b') (proj b')); auto; lra.
   Qed.
 
-  Lemma climb_terminates_gen : conn_closed vs conn -> forall fuel b,
-    (b < length vs)%nat -> (length (better b) < fuel)%nat ->
-    exists i, climb fuel d vs conn b = ClimbOk i /\ (i < length vs)%nat.
+  Lemma inv_proj b bp : inv d vs b bp -> bp = proj b.
+  Proof. intros (vb & E & ->). unfold proj. rewrite E. reflexivity. Qed.
+
+  Lemma climb_terminates_gen : conn_closed vs conn -> forall fuel b bp,
+    (b < length vs)%nat -> inv d vs b bp -> (length (better b) < fuel)%nat ->
+    exists i, climb fuel d vs conn b bp = ClimbOk i /\ (i < length vs)%nat.
   Proof.
-    intros Hc. induction fuel as [|fuel IH]; intros b Hv Hm; [lia|].
+    intros Hc. induction fuel as [|fuel IH]; intros b bp Hv Hi Hm; [lia|].
     cbn [climb].
     destruct (Hc b Hv) as (nb & -> & Hnb).
-    destruct (scan_total d vs nb b false Hnb Hv) as (b' & m & Es). rewrite Es.
-    pose proof (scan_valid _ _ _ _ _ _ _ Es Hv) as Hv'.
+    destruct (scan_total d vs nb b bp false Hnb) as (b' & bp' & m & Es). rewrite Es.
+    pose proof (scan_valid _ _ _ _ _ _ _ _ _ Es Hv) as Hv'.
+    destruct (scan_inv _ _ _ _ _ _ _ _ _ Es Hi) as (Hi' & _ & Hlt).
     destruct m; [|eauto].
     apply IH; auto.
-    destruct (nth_error vs b) as [vb|] eqn:Eb; [|apply nth_error_None in Eb; lia].
-    destruct (scan_mono _ _ _ _ _ _ _ _ Es Eb) as (vb' & Eb' & _ & Hlt).
     specialize (Hlt eq_refl eq_refl).
     assert (Hp : proj b < proj b').
-    { unfold proj. rewrite Eb, Eb'. pose proof EPSILON10_R_pos. lra. }
+    { rewrite <- (inv_proj _ _ Hi), <- (inv_proj _ _ Hi'). pose proof EPSILON10_R_pos. lra. }
     pose proof (better_decreases b b' Hv' Hp). lia.
   Qed.
 End Terminates.
 
-Theorem climb_terminates : forall (d : V3R) vs conn start,
-  conn_closed vs conn -> (start < length vs)%nat ->
-  exists i, climb (S (length vs)) d vs conn start = ClimbOk i /\ (i < length vs)%nat.
+Theorem climb_terminates : forall (d : V3R) vs conn start v0,
+  conn_closed vs conn -> nth_error vs start = Some v0 ->
+  exists i, climb (S (length vs)) d vs conn start (dot d v0) = ClimbOk i /\ (i < length vs)%nat.
 Proof.
-  intros d vs conn start Hc Hv. apply climb_terminates_gen; auto.
-  pose proof (better_le d vs start). lia.
+  intros d vs conn start v0 Hc E. apply climb_terminates_gen; auto.
+  - apply nth_error_Some. congruence.
+  - exists v0; auto.
+  - pose proof (better_le d vs start). lia.
+Qed.
+
+(** the whole function: shortcut pass, then the loop; never out of fuel with [length vs + 1] *)
+Theorem hill_climb_terminates : forall (d : V3R) vs conn shortcuts start,
+  conn_closed vs conn -> (start < length vs)%nat ->
+  (forall j, In j shortcuts -> (j < length vs)%nat) ->
+  exists i, hill_climb (S (length vs)) d start vs conn shortcuts = ClimbOk i /\ (i < length vs)%nat.
+Proof.
+  intros d vs conn shortcuts start Hc Hv Hs. unfold hill_climb.
+  destruct (nth_error vs start) as [v0|] eqn:E0; [|apply nth_error_None in E0; lia].
+  destruct (scan_total d vs shortcuts start (dot d v0) false Hs) as (b & bp & m & Es). rewrite Es.
+  pose proof (scan_valid _ _ _ _ _ _ _ _ _ Es Hv) as Hb.
+  destruct (scan_inv _ _ _ _ _ _ _ _ _ Es (ex_intro _ v0 (conj E0 eq_refl))) as (Hi & _ & _).
+  apply climb_terminates_gen; auto.
+  pose proof (better_le d vs b). lia.
 Qed.
 
 (** ** non-vacuity: the octahedron with its edge graph satisfies the hypotheses *)
@@ -344,10 +349,8 @@ Theorem mesh_query_total (T : Pose R) vs conn shortcuts first_idx (d : V3R) :
   (forall j, In j shortcuts -> (j < length vs)%nat) ->
   exists idx p, mesh_query (S (length vs)) T vs conn shortcuts first_idx d = Some (idx, p).
 Proof.
-  intros Hc Hv Hs. unfold mesh_query, hill_climb.
-  destruct (scan_total (mulTV (rot T) d) vs shortcuts first_idx false Hs Hv) as (b & m & Es).
-  rewrite Es. pose proof (scan_valid _ _ _ _ _ _ _ Es Hv) as Hb.
-  destruct (climb_terminates (mulTV (rot T) d) vs conn b Hc Hb) as (i & -> & Hi).
+  intros Hc Hv Hs. unfold mesh_query.
+  destruct (hill_climb_terminates (mulTV (rot T) d) vs conn shortcuts first_idx Hc Hv Hs) as (i & -> & Hi).
   destruct (nth_error vs i) as [v|] eqn:Ev; [eauto|apply nth_error_None in Ev; lia].
 Qed.
 
